@@ -11,6 +11,7 @@
 import Driver.C05
 import Driver.C16
 import Driver.Wild
+import Driver.Config
 
 open Corerad
 
@@ -19,7 +20,9 @@ def handlers : List (String × (List String → List String → Option Verdict))
   ("pl", Driver.C16.pl), ("rl", Driver.C16.rl),
   ("wp", Driver.Wild.wp), ("wperr", Driver.Wild.wperr),
   ("wd", Driver.Wild.wd), ("wderr", Driver.Wild.wderr),
-  ("wr", Driver.Wild.wr), ("wrerr", Driver.Wild.wrerr)
+  ("wr", Driver.Wild.wr), ("wrerr", Driver.Wild.wrerr),
+  ("cfg", Driver.Config.cfg), ("fuzz", Driver.Config.fuzz),
+  ("ra1", Driver.Config.ra1), ("ra3", Driver.Config.ra3), ("ra4", Driver.Config.ra4)
 ]
 
 def runLine (line : String) : String :=
